@@ -177,6 +177,8 @@ def parse_trace(path):
 
 
 _TMP_RE = re.compile(r"breadlog-[0-9a-f]{8}-[0-9a-f]{4}-[0-9a-f]{4}-[0-9a-f]{4}-[0-9a-f]{12}\.tmp")
+# a random part in the name of a scratch file that lives elsewhere (e.g. beside the file it replaces): "the n-th random name"
+_RND_RE = re.compile(r"[0-9a-fA-F]{8}-[0-9a-fA-F]{4}-[0-9a-fA-F]{4}-[0-9a-fA-F]{4}-[0-9a-fA-F]{12}|[0-9a-fA-F]{16,}")
 
 
 def normalise_trace(ops, roots=()):
@@ -190,6 +192,7 @@ def normalise_trace(ops, roots=()):
                 names[m.group(0)] = "TMP#%d" % len(names)
             return names[m.group(0)]
         p = _TMP_RE.sub(sub, p)
+        p = _RND_RE.sub(sub, p)
         for i, r in enumerate(roots):
             if p == r or p.startswith(r + "/"):
                 p = "$R%d" % i + p[len(r):]
